@@ -50,7 +50,7 @@ def main():
         if len(blocks) == 2:
             pairs.append((blocks[0].split("\n"), blocks[1].split("\n"), ["corpus"]))
     for i in range(npairs):
-        lines, used = G.gen_design(rep.seed * 200003 + i, f"a{i}", extra_templates=("t_xovr", "t_edges"))
+        lines, used = G.gen_design(rep.seed * 200003 + i, f"a{i}", extra_templates=("t_xovr", "t_edges", "t_attached_reset"))
         tw, ap = G.decorate(lines, rep.seed * 300007 + i)
         pairs.append((lines, tw, ap))
     allprogs, ida, idb, dec = [], [], [], {}
